@@ -204,8 +204,38 @@ pub fn run(thorough: bool) -> Vec<Part> {
             }
         }
         {
-            let tl = crate::connx::stateless_sequences(&cfg, if thorough { 4 } else { 3 }, workers());
-            crate::connx::record_stateless(&mut part, "alphabet piece sequences", &tl);
+            // the application answers every request it pops and writes at once: the write path
+            // works on the same connection object between the reads
+            let mut acfg = cfg.clone();
+            acfg.answer_requests = true;
+            let tl = crate::connx::stateless_sequences(&acfg, if thorough { 4 } else { 3 }, workers());
+            crate::connx::record_stateless(&mut part, "alphabet piece sequences (application answers each request)", &tl);
+        }
+        {
+            // the application may look late: reads after which it pops nothing, or exactly one
+            // request; pipelined minimal requests so that several are waiting
+            // distinguishable requests, so that an overtaking is visible
+            let mut pieces = vec![
+                crate::connx::piece("rl_a", crate::connx::Class::ReqLine, b"GET /a HTTP/1.1\r\n"),
+                crate::connx::piece("rl_b", crate::connx::Class::ReqLine, b"GET /b HTTP/1.0\r\n"),
+                crate::connx::piece("rl_c", crate::connx::Class::ReqLine, b"PATCH /c HTTP/1.1\r\n"),
+                crate::connx::piece("blank", crate::connx::Class::Blank, b"\r\n"),
+            ];
+            if thorough {
+                pieces.push(crate::connx::piece("h_xa", crate::connx::Class::Header, b"X-a: 1\r\n"));
+                pieces.push(crate::connx::piece("h_cl3", crate::connx::Class::Header, b"Content-Length: 3\r\n"));
+                pieces.push(crate::connx::piece("body_abc", crate::connx::Class::Body, b"abc"));
+            }
+            let mut dcfg = Cfg::base("C01", "late and partial pops (pipelined requests)", pieces, 40);
+            dcfg.allow_defer = true;
+            dcfg.answer_requests = true;
+            dcfg.empty_reads = false;
+            dcfg.offer_when_queued_le = 24;
+            let st = bfs(&dcfg, &Limits { max_states: if thorough { 3_000_000 } else { 400_000 }, max_secs: if thorough { 600.0 } else { 40.0 }, ..Default::default() }, workers());
+            record(&mut part, &dcfg.label, &st);
+            for (v, _) in &st.violations {
+                part.violations.push(v.clone());
+            }
         }
         // Independent, stateless cross-check (no state digest involved anywhere): concrete
         // streams, every segmentation with at most 2 (thorough: 3) cuts, with and without
@@ -244,6 +274,7 @@ pub fn run(thorough: bool) -> Vec<Part> {
                 let n = st.len();
                 let mut cfg = Cfg::base("C01", &format!("stateless stream #{}", si), vec![], 40);
                 cfg.stream = Some(st.clone());
+                cfg.answer_requests = si % 2 == 1;
                 let (gv, gobs, _, gacts) = crate::connx::run_segments(&cfg, &[n], false);
                 if let Some((sig, d)) = gv {
                     t.violate(&sig, format!("[stream #{} greedy] {}", si, d), crate::connx::schedule_replay(&cfg, &gacts));
@@ -322,6 +353,7 @@ pub fn run(thorough: bool) -> Vec<Part> {
             let mut cfg = Cfg::base("C01", &name, vec![], 51200);
             cfg.stream = Some(s.clone());
             cfg.empty_reads = false;
+            cfg.answer_requests = true;
             let limits = Limits { max_states: 2_000_000, max_secs: 600.0, ..Default::default() };
             let st = bfs(&cfg, &limits, workers());
             record(&mut part, &name, &st);
